@@ -296,6 +296,36 @@ var _ = late(func() {
 					}
 				}
 				r.ok(good, "xsort."+fn.Name()+"|delegates-to-namesake", fn.Pos(), "xsort."+fn.Name()+" must follow the rules of sort."+fn.Name()+" and therefore be built on it (or on slices."+want+"); it calls "+joinStr(called, ", "))
+				// ... and what a delegating adapter answers IS the delegate's answer, on every path: a shortcut that returns
+				// something of its own (a "belongs at the end" fast path in Search) answers differently from sort.Search for
+				// some inputs
+				if good && fn.Signature.Results().Len() == 1 {
+					var deleg *ssa.Call
+					instrs(fn, func(_ *ssa.BasicBlock, _ int, in ssa.Instruction) {
+						if call, ok := in.(*ssa.Call); ok {
+							if cal := call.Call.StaticCallee(); cal != nil && cal.Pkg != nil && (cal.Pkg.Pkg.Path() == "sort" || cal.Pkg.Pkg.Path() == "slices") {
+								deleg = call
+							}
+						}
+					})
+					if deleg != nil {
+						k := 0
+						instrs(fn, func(_ *ssa.BasicBlock, _ int, in ssa.Instruction) {
+							ret, ok := in.(*ssa.Return)
+							if !ok || len(ret.Results) != 1 {
+								return
+							}
+							for _, vr := range virtualReturnsOf(ret, 0) {
+								k++
+								v := vr.val
+								if ex, ok := v.(*ssa.Extract); ok {
+									v = ex.Tuple
+								}
+								r.ok(v == ssa.Value(deleg), "xsort."+fn.Name()+"|answer-is-the-delegate's#"+itoa(k), retPos(ret), "a path returns "+path(vr.val)+" instead of what sort."+fn.Name()+" answers: the adapter no longer follows the rules of its namesake for the inputs that take this path")
+							}
+						})
+					}
+				}
 			}
 		}})
 })
@@ -313,3 +343,84 @@ func joinStr(xs []string, sep string) string {
 	}
 	return out
 }
+
+// C19.callers-skip-advances: WithStack reads the stack in batches with runtime.Callers(skip, buf). The next batch starts where
+// this one ended: skip grows by exactly the number of frames just read. Any other value (len(ptrs), which lacks the initial
+// offset) makes the second batch overlap the first on stacks deeper than one batch - frames appear twice in Error().
+// C19.written-maps-are-made: a map that an xmaps function fills was created by make in that function; a result obtained from
+// maps.Clone(arg) is nil for a nil argument and the first insertion panics (Union(nil, s)).
+// C19 namesake answers: see rule C19.namesake-delegation (a delegating adapter returns the delegate's answer on every path).
+var _ = late(func() {
+	p := properties["C19"]
+	p.Rules = append(p.Rules, &Rule{ID: "C19.callers-skip-advances", Floor: 1, Clause: "in xerrors.WithStack the skip argument of runtime.Callers is a loop variable whose only update is skip + n with n the result of that very call (the next batch starts exactly after the frames just read)",
+		Run: func(c *Ctx, r *R) {
+			fn := c.fn("xerrors.WithStack")
+			if fn == nil {
+				r.undecided("xerrors.WithStack|missing", token.NoPos, "anchor not found")
+				return
+			}
+			n := 0
+			for _, di := range deepInstrs(fn, 2) {
+				call, ok := di.in.(*ssa.Call)
+				if !ok {
+					continue
+				}
+				cal := call.Call.StaticCallee()
+				if cal == nil || cal.Name() != "Callers" || cal.Pkg == nil || cal.Pkg.Pkg.Path() != "runtime" || len(call.Call.Args) != 2 {
+					continue
+				}
+				phi, isPhi := call.Call.Args[0].(*ssa.Phi)
+				if !isPhi {
+					// a single call with a constant skip: nothing to advance
+					if _, isK := call.Call.Args[0].(*ssa.Const); isK {
+						n++
+						r.discharged("xerrors.WithStack|skip#"+itoa(n), call.Pos(), "a single runtime.Callers call with a constant skip")
+					}
+					continue
+				}
+				for _, e := range phi.Edges {
+					if _, isK := e.(*ssa.Const); isK {
+						continue // the initial offset
+					}
+					n++
+					bin, ok := e.(*ssa.BinOp)
+					good := ok && bin.Op == token.ADD && ((bin.X == ssa.Value(phi) && bin.Y == ssa.Value(call)) || (bin.Y == ssa.Value(phi) && bin.X == ssa.Value(call)))
+					r.ok(good, "xerrors.WithStack|skip#"+itoa(n), call.Pos(), "the next runtime.Callers batch starts at "+path(e)+" instead of skip + n: on a stack deeper than one batch the batches overlap (frames recorded twice) or leave a gap")
+				}
+			}
+			if n == 0 {
+				r.undecided("xerrors.WithStack|skip", fn.Pos(), "no runtime.Callers call found")
+			}
+		}})
+	p.Rules = append(p.Rules, &Rule{ID: "C19.written-maps-are-made", Floor: 8, Clause: "every map an exported xmaps function inserts into was created by make (or a literal) in that function on every path: a map obtained from a call (maps.Clone of an argument) is nil for a nil argument and the insertion panics",
+		Run: func(c *Ctx, r *R) {
+			fns := c.funcsOfPkg("xmaps")
+			sort.Slice(fns, func(i, j int) bool { return c.nameOf(fns[i]) < c.nameOf(fns[j]) })
+			for _, fn := range fns {
+				name := c.nameOf(fn)
+				n := 0
+				instrs(fn, func(_ *ssa.BasicBlock, _ int, in ssa.Instruction) {
+					mu, ok := in.(*ssa.MapUpdate)
+					if !ok {
+						return
+					}
+					n++
+					good, why := true, ""
+					ls := valueLeaves(mu.Map, nil, 0)
+					for _, lf := range ls {
+						v := resolveVal(lf.v)
+						switch x := v.(type) {
+						case *ssa.MakeMap:
+						case *ssa.Parameter:
+							// writing into an argument is decided by C19.param-effects
+						case *ssa.Call:
+							good, why = false, "the map comes from "+calleeName(&x.Call)
+						default:
+							good, why = false, "the map is "+path(v)
+						}
+					}
+					r.ok(good && len(ls) > 0, name+"|insert#"+itoa(n), mu.Pos(), "an insertion into a map that was not made here ("+why+"): it may be nil (e.g. a clone of a nil argument), and inserting into a nil map panics")
+				})
+			}
+		}})
+})
